@@ -37,6 +37,16 @@ ben("reader_strips_and_checks_empty", ["C16", "C11", "C12"], "reader strips whit
 ben("threshold_tightened", ["C10", "C12", "C16", "C11"], "solver threshold 1e-7: every number changes, reference moves along",
     [("tad.py", "        solver = Solver(threshold=10**(-6), state_list=state_list)\n", "        solver = Solver(threshold=10**(-7), state_list=state_list)\n")])
 
+ben("generator_writes_temp_then_renames", ["C11", "C15", "C17"], "atomic replace: write <name>.tmp, fsync-free os.replace onto the target",
+    [("roberta_generator.py", "    my_file = open(file_name, \"w\")\n", "    import os\n    final_name, file_name = file_name, file_name + \".tmp\"\n    my_file = open(file_name, \"w\")\n"),
+     ("roberta_generator.py", "    my_file.close()\n", "    my_file.close()\n    os.replace(file_name, final_name)\n")])
+ben("report_writes_temp_then_renames_and_keeps_log", ["C16", "C12"], "atomic replace of the report plus an auxiliary run log under outputs/.log/",
+    [("conditionalrewards.py", "    with open(f\"outputs/{file_name}.txt\", \"w\") as file:\n        for name, game in game_resuts.items():",
+      "    import os\n    os.makedirs(\"outputs/.log\", exist_ok=True)\n    with open(\"outputs/.log/runs.log\", \"a\") as log:\n        log.write(file_name + \"\\n\")\n    with open(f\"outputs/{file_name}.txt.part\", \"w\") as file:\n        for name, game in game_resuts.items():"),
+     ("conditionalrewards.py", "            file.write(f\"Total time              : {total_time}\\n\")\n",
+      "            file.write(f\"Total time              : {total_time}\\n\")\n    os.replace(f\"outputs/{file_name}.txt.part\", f\"outputs/{file_name}.txt\")\n")])
+
+
 def main():
     os.makedirs(OUT, exist_ok=True)
     for name, props, why, edits in B:
